@@ -130,7 +130,9 @@ def handleCall (req : Json) : Except String Json := do
       | .ok a => a
       | .error _ => .opt none
     | .error _ => .opt none
-  let outs ← (← req.getObjValAs? (List Json) "outputs").mapM parseArg
+  -- outputs: `_init_output_vars` (every declared output, `nvar` variadic ones), named by field key
+  let nvar ← req.getObjValAs? Nat "nvar"
+  let outs := initOutputs c.cls.outputs nvar
   let n : NodeIn String Val :=
     { opType := c.cls.opName, domain := c.cls.domain, version := c.cls.version,
       mins := parseMins req, inputs := callInputs c args, outputs := outs,
